@@ -362,3 +362,139 @@ def ver3_bindings(ctx: Ctx) -> None:
 
 
 RULES = [ver0_compiles, ver1_opcodes, ver2_dispatch, ver3_bindings, opc4_names]
+
+
+def ver4_stdlib_api(ctx: Ctx) -> None:
+    """VER-4 every standard-library name used under versions U exists, and every call of it binds, in the
+    standard library of each V in U (names and signatures taken from each interpreter)"""
+    API = {v: ctx.F["interp"][v]["stdlib"] for v in ctx.V.all}
+    known_mods = set(API[next(iter(ctx.V.all))])
+    n = 0
+    unknown_mods: Set[str] = set()
+    for mn in VER_MODULES:
+        mod = ctx.P.mod(mn)
+        reach = ctx.reach(mod)
+        adm = reach.module_after
+
+        def live_of(node: ast.AST) -> VSet:
+            return reach.live.get(id(node), adm)
+
+        # local name -> (stdlib module, attr or None)
+        binds: Dict[str, tuple] = {}
+        for st in ast.walk(mod.tree):
+            if isinstance(st, ast.Import):
+                for a in st.names:
+                    if a.name in known_mods:
+                        binds[a.asname or a.name.split(".")[0]] = (a.name if a.asname else a.name.split(".")[0], None)
+                    elif a.name.split(".")[0] in sys.stdlib_module_names:
+                        unknown_mods.add(a.name)
+            elif isinstance(st, ast.ImportFrom) and not st.level and st.module:
+                if st.module in known_mods:
+                    for a in st.names:
+                        if a.name == "*":
+                            continue
+                        binds[a.asname or a.name] = (st.module, a.name)
+                        n += 1
+                        live = live_of(st)
+                        bad = sorted(v for v in live if a.name not in API[v][st.module]["names"])
+                        if bad:
+                            ctx.R.fail("VER-4", mod, st, f"`from {st.module} import {a.name}` is reachable under CPython {fmt(live)} but {st.module}.{a.name} does not exist in {bad}: ImportError there",
+                                       construct=f"from {st.module} import {a.name}")
+                        else:
+                            ctx.R.ok("VER-4", f"{mn}: from {st.module} import {a.name}", f"exists in {fmt(live)}")
+                elif st.module.split(".")[0] in sys.stdlib_module_names:
+                    unknown_mods.add(st.module)
+
+        def resolve(e: ast.AST):
+            """expression -> (module, dotted attr path) if it denotes a stdlib object"""
+            if isinstance(e, ast.Name) and e.id in binds and ctx.P._local_binding(mod, e, e.id) is None:
+                m, a = binds[e.id]
+                return (m, a)
+            if isinstance(e, ast.Attribute):
+                base = resolve(e.value)
+                if base is not None:
+                    m, a = base
+                    if a is None:
+                        sub = f"{m}.{e.attr}"
+                        if sub in known_mods and e.attr not in API[next(iter(ctx.V.all))][m]["sigs"]:
+                            return (sub, None)
+                        return (m, e.attr)
+                    return (m, f"{a}.{e.attr}")
+            return None
+
+        for node in ast.walk(mod.tree):
+            if isinstance(node, ast.Attribute) and isinstance(node.ctx, ast.Load):
+                r = resolve(node)
+                if r is None or r[1] is None:
+                    continue
+                m, path = r
+                parts = path.split(".")
+                if len(parts) > 2:
+                    continue
+                live = reach.live.get(id(node))
+                if live is None:
+                    continue  # annotation positions
+                n += 1
+                bad = []
+                for v in live:
+                    names = API[v][m]["names"]
+                    if parts[0] not in names:
+                        bad.append(v)
+                    elif len(parts) == 2 and parts[0] in API[v][m]["members"] and parts[1] not in API[v][m]["members"][parts[0]] and not parts[1].startswith("__"):
+                        bad.append(v)
+                if bad:
+                    ctx.R.fail("VER-4", mod, node, f"`{m}.{path}` is used on a path reachable under CPython {fmt(live)} but does not exist in {sorted(bad)}: AttributeError there",
+                               construct=f"{m}.{path} in {norm(_stmt(mod, node))[:100]}")
+                else:
+                    ctx.R.ok("VER-4", f"{mn}.{mod.qualname_of(node)}: {m}.{path}", f"exists in {fmt(live)}")
+        for call in ast.walk(mod.tree):
+            if not isinstance(call, ast.Call):
+                continue
+            r = resolve(call.func)
+            if r is None or r[1] is None:
+                continue
+            m, path = r
+            live = reach.live.get(id(call))
+            if live is None:
+                continue
+            if any(isinstance(a, ast.Starred) for a in call.args) or any(k.arg is None for k in call.keywords):
+                continue
+            npos = len(call.args)
+            kws = [k.arg for k in call.keywords]
+            bad = {}
+            checked = False
+            for v in live:
+                sg = API[v][m]["sigs"].get(path)
+                if sg is None:
+                    continue
+                checked = True
+                pos_max = sg["pos_max"]
+                is_method = "." in path and path.split(".")[0] in API[v][m]["members"]
+                # unbound-style signatures of methods reached through the class include `self` for plain functions;
+                # classmethods/staticmethods do not: only judge what is unambiguous (module-level callables and classes)
+                if is_method:
+                    continue
+                if npos + len([k for k in kws if k in sg["kw"][: max(0, sg["pos_min"] - npos)]]) < sg["pos_min"] and not all(
+                        p in kws for p in sg["kw"][npos:sg["pos_min"]]):
+                    bad[v] = f"needs at least {sg['pos_min']} positional argument(s), {npos} given"
+                elif pos_max is not None and npos > pos_max:
+                    bad[v] = f"takes at most {pos_max} positional argument(s), {npos} given"
+                else:
+                    unk = [k for k in kws if k not in sg["kw"]]
+                    if unk and not sg["varkw"]:
+                        bad[v] = f"has no keyword parameter {unk}"
+            if checked:
+                n += 1
+                if bad:
+                    ctx.R.fail("VER-4", mod, call, f"`{norm(call)[:70]}` is reachable under CPython {fmt(live)} but does not bind to the signature of {m}.{path} in "
+                               + "; ".join(f"{v}: {why}" for v, why in sorted(bad.items())) + " (TypeError there; invisible to the 3.12-only suite)",
+                               construct=f"{norm(call)[:100]}")
+                else:
+                    ctx.R.ok("VER-4", f"{mn}.{mod.qualname_of(call)}: call {m}.{path}({npos} positional, {kws})", f"binds in {fmt(live)}")
+    if unknown_mods:
+        ctx.R.note(f"VER-4: standard-library modules imported by the package but not in the fact tables (unchecked): {sorted(unknown_mods)}")
+    if n < 150:
+        raise AnalysisError(f"VER-4: only {n} standard-library uses checked (>= 150 confirmed by hand)")
+
+
+RULES = [ver0_compiles, ver1_opcodes, ver2_dispatch, ver3_bindings, opc4_names, ver4_stdlib_api]
